@@ -568,6 +568,9 @@ func isFailureValue(v ssa.Value, fk FailKind, env *pathEnv) bool {
 			if b, ok := ConstOf(c); ok && b.Sign() == 0 {
 				return true
 			}
+			if c.Value.Kind() == constant.String && constant.StringVal(c.Value) == "" {
+				return true
+			}
 		}
 		return false
 	case "nonnil":
